@@ -51,3 +51,14 @@ def fill(claim, NA):
 		  "trace_length, resolve_rename (any injective renumbering leaves what the simulator sees unchanged), op_skips_order, sp_holds, backorders_first, "
 		  "tp_freezes, rp_releases. Tie: full-trajectory exact equality (all 24 documented fields, both DFS visiting sequences, returned total) + six "
 		  "Python-vs-Python variants per case (step-wise, re-run, relabel fresh / reindex_nodes, consistency_checks E/N).", SIMNOTE)
+
+	claim('C20',
+		  "Theorems (Props/C20.lean): dict_match_symm + dict_match_spec (exactly the documented predicate with tolerance and presence options) + isclose_symm; "
+		  "nearest_unsorted_spec (index of a first element at minimal distance), nearest_sorted_spec (searchsorted-based branch returns a nearest element for ANY "
+		  "sorted array and value: below, inside, above, ties); direct convolution: lsum_conv (mass = product of masses), convMany_sum_one, conv_nn / convMany_nn, "
+		  "conv_length; sumDiscreteUniforms_is_pmf; compareLists_iff_perm (multiset equality); ensure_list_cases / ensure_dict_cases; sortByKey_spec (sorted + "
+		  "permutation); time-period list conventions (C11's scalar_equiv_list, listT_equiv_listT1). Tie: each helper on generated shapes (empty, singleton, ties, wrong "
+		  "lengths, None, ndarray/list/scalar) compared with the Lean model exactly (FFT convolution, Irwin-Hall: 1e-9) plus the documented predicate; aliasing/mutation "
+		  "checks. String-key helpers and predicates are harness-only reference tests (labelled).",
+		  "Trusted: Lean kernel + 3 axioms; harness. Modelled not verified: helpers.py functions listed (Model/Helpers.lean). FFT vs direct convolution agree only up to "
+		  "rounding (FP); that the Irwin-Hall formula is the true cdf is not proved. NumPy's searchsorted/argmin/fft are black boxes.")
